@@ -1,4 +1,5 @@
 import SigmaVerif.Spec.Mods
+import SigmaVerif.Spec.Placeholder
 import SigmaVerif.Spec.Cond
 import SigmaVerif.Model.Cidr
 /-!
@@ -27,6 +28,7 @@ inductive Atom
   | cmp (field : Option Str) (op : Str) (n : Str)
   | ref (field : Option Str) (f2 : Str) (sw ew : Bool)
   | ts (field : Option Str) (unit : Str) (n : Str)
+  | qx (field : Option Str) (expr : Str) (id : Str)          -- query expression put in place of a placeholder
 deriving DecidableEq, Repr
 
 inductive BE
@@ -75,6 +77,8 @@ deriving Repr
 structure Ctx where
   env : Env
   nativeCidr : Bool
+  phItems : List Placeholder.PhItem := []
+  vars : List (Str × List Placeholder.VarVal) := []
 
 /-! ### IPv4 CIDR text → (base, prefix) for backends without native CIDR support -/
 
@@ -100,9 +104,56 @@ def parseCidr4 (t : Str) : Option (Nat × Nat) :=
 
 def patOfStr (t : Str) : SStr := t.map (fun c => if c == '*' then Part.star else Part.lit c)
 
+inductive SpecErr
+  | mod (e : MErr) | unsupported (what : String) | cond (what : String)
+  | ph (e : Placeholder.PhErr)          -- a placeholder item raises a Sigma error
+  | unresolved (name : Str)             -- a placeholder is left when the query is rendered
+deriving Repr
+
+/-- state of one string value while the placeholder items of the pipeline run over it -/
+inductive PhState
+  | alts (vs : List SStr)
+  | qexpr (expr id : Str)
+
+def phStep (cx : Ctx) (it : Placeholder.PhItem) : List SStr → Except SpecErr PhState
+  | [] => .ok (.alts [])
+  | s :: rest =>
+    match Placeholder.applyItem cx.vars it s, phStep cx it rest with
+    | .err e, _ => .error (.ph e)
+    | _, .error e => .error e
+    | .qexpr e i, _ => .ok (.qexpr e i)
+    | _, .ok (.qexpr e i) => .ok (.qexpr e i)
+    | .same, .ok (.alts vs) => .ok (.alts (s :: vs))
+    | .alts xs, .ok (.alts vs) => .ok (.alts (xs ++ vs))
+
+def phRun (cx : Ctx) : List Placeholder.PhItem → PhState → Except SpecErr PhState
+  | [], st => .ok st
+  | _ :: _, .qexpr e i => .ok (.qexpr e i)
+  | it :: its, .alts vs =>
+    match phStep cx it vs with
+    | .ok st => phRun cx its st
+    | .error e => .error e
+
+/-- a string value after all placeholder items: alternatives (OR-linked) or a query expression;
+a placeholder that is still there makes the conversion fail -/
+def strBE (cx : Ctx) (field : Option Str) (c : Bool) (s : SStr) : Except SpecErr BE :=
+  if Placeholder.noPh s then .ok (.atom (.str field c s)) else
+  match phRun cx cx.phItems (.alts [s]) with
+  | .error e => .error e
+  | .ok (.qexpr e i) =>
+    -- the expression template names the field: a keyword value cannot carry it
+    if field.isNone then .error (.ph .mixed) else .ok (.atom (.qx field e i))
+  | .ok (.alts vs) =>
+    match vs.find? (fun v => !Placeholder.noPh v) with
+    | some v => .error (.unresolved ((Placeholder.phNames v).headD []))
+    | none =>
+      match vs with
+      | [v] => .ok (.atom (.str field c v))
+      | _ => .ok (.or (vs.map (fun v => .atom (.str field c v))))
+
 /-- meaning of one (field, value) pair; `none` = the specification cannot express it here -/
 def valBE (cx : Ctx) (field : Option Str) : Nat → Val → Option BE
-  | _, .str c s => some (.atom (.str field c s))
+  | _, .str c s => if Placeholder.noPh s then some (.atom (.str field c s)) else none   -- placeholders: see `valBE'`
   | _, .num n => some (.atom (.num field n))
   | _, .bool b => some (.atom (.bool field b))
   | _, .null => some (.atom (.null field))
@@ -122,14 +173,30 @@ def valBE (cx : Ctx) (field : Option Str) : Nat → Val → Option BE
     | some es => some (.or es)
     | none => none
 
+/-- top-level values of an item: strings go through the placeholder items; placeholders inside
+expanded values are not reached by the transformations and stay unresolved -/
+def valBE' (cx : Ctx) (field : Option Str) (v : Val) : Except SpecErr BE :=
+  match v with
+  | .str c s => strBE cx field c s
+  | .expansion vs =>
+    match vs.find? (fun x => match x with | .str _ s => !Placeholder.noPh s | _ => false) with
+    | some (.str _ s) => .error (.unresolved ((Placeholder.phNames s).headD []))
+    | _ => match valBE cx field 8 v with | some e => .ok e | none => .error (.unsupported "value")
+  | _ => match valBE cx field 8 v with | some e => .ok e | none => .error (.unsupported "value")
+
 def pvToVal (raw : Bool) : PV → Val
   | .str s => .str false (if raw then s.map .lit else parse s)
   | .num n => .num n
   | .bool b => .bool b
   | .null => .null
 
-inductive SpecErr | mod (e : MErr) | unsupported (what : String) | cond (what : String)
-deriving Repr
+def mapME (f : α → Except SpecErr β) : List α → Except SpecErr (List β)
+  | [] => .ok []
+  | a :: as =>
+    match f a, mapME f as with
+    | .ok b, .ok bs => .ok (b :: bs)
+    | .error e, _ => .error e
+    | _, .error e => .error e
 
 /-- meaning of one detection item `key: values` -/
 def itemBE (cx : Ctx) (key : Option Str) (vs : List PV) : Except SpecErr BE :=
@@ -144,21 +211,13 @@ def itemBE (cx : Ctx) (key : Option Str) (vs : List PV) : Except SpecErr BE :=
       match it.vals with
       | [] => if field.isSome then .ok (.atom (.null field)) else .error (.unsupported "null value without field")
       | vals =>
-        match vals.mapM (valBE cx field 8) with
-        | some [e] => .ok e
-        | some es => .ok (if it.linkAnd then .and es else .or es)
-        | none => .error (.unsupported "value")
+        match mapME (valBE' cx field) vals with
+        | .ok [e] => .ok e
+        | .ok es => .ok (if it.linkAnd then .and es else .or es)
+        | .error e => .error e
     match body with
     | .ok e => .ok (if it.negated then .not e else e)
     | .error e => .error e
-
-def mapME (f : α → Except SpecErr β) : List α → Except SpecErr (List β)
-  | [] => .ok []
-  | a :: as =>
-    match f a, mapME f as with
-    | .ok b, .ok bs => .ok (b :: bs)
-    | .error e, _ => .error e
-    | _, .error e => .error e
 
 /-- meaning of a detection: map = AND of items, list = OR of elements -/
 def detBE (cx : Ctx) : Nat → Det → Except SpecErr BE
